@@ -994,14 +994,21 @@ func execServe(f []string) vlib.Res {
 			release := middleware.ResponseMetaFrom(ctx).MarkCachedFailureResponse(m)
 			defer release()
 		case 'a':
+			// as the resolver does: the guard is established on the context this
+			// handler runs on (for a wire-born request: the detached tree)
+			ctx, _ = middleware.EnsureResolutionAttemptGuard(ctx)
 			middleware.MarkRequestLocalFailureResponse(ctx, m, &middleware.ResolutionAttemptLimitError{Question: m.Question[0], Endpoint: "192.0.2.53:53", Transport: "udp"})
 		case 'l':
+			ctx, _ = middleware.EnsureResolutionAttemptGuard(ctx)
 			middleware.MarkRequestLocalFailureResponse(ctx, m, context.DeadlineExceeded)
 		}
 		_ = ch.Writer.WriteMsg(m)
 	})
 
-	ctx, _ := middleware.EnsureResolutionAttemptGuard(context.Background())
+	// No request-tree state is established ahead of the chain: the server's job
+	// context carries none, so for a wire-born request every provenance mark the
+	// downstream leaves lives on the detached tree only.
+	ctx := context.Background()
 	if wx {
 		ledger := middleware.NewRecursionWorkLedger(middleware.RecursionWorkPolicy{Mode: middleware.RecursionWorkEnforce, MaxOutboundQueries: 1, MaxInternalQueries: 0})
 		_ = ledger.Debit(middleware.RecursionWorkInternalQuery)
